@@ -187,7 +187,7 @@ func c05chan(c *h.Ctx, cs *h.Case) {
 				if v == want {
 					return true
 				}
-			case <-time.After(10 * time.Second):
+			case <-time.After(6 * time.Second):
 				return false
 			}
 		}
@@ -319,6 +319,11 @@ func c05chan(c *h.Ctx, cs *h.Case) {
 				}
 			}
 			if !barrier() {
+				if isCh && !busy && r.rejected[m] {
+					cs.Impl = append(cs.Impl, "stuck")
+					cs.Fail("full-channel-blocks-reader", fmt.Sprintf("message %d found the channel full (channel of %d); a message handed over after it is never handled although no handler is running: the reader waits for room in the channel", m, capacity))
+					continue
+				}
 				stuck(fmt.Sprintf("a barrier message behind message %d is never handled although no handler is running", m))
 				continue
 			}
